@@ -144,7 +144,11 @@ func judgeGet(m *model, addr string, got cred, err error, who string, info *step
 }
 
 // observe: a fresh store loaded from the file must answer like the model.
-func reopenCheck(path string, m *model, addrs []string) *driver.Fail {
+// reopenCheck loads the file into a fresh store, which must answer like the model; live, when given, is
+// the store that executed the history: where the model leaves a choice (legacy-key lookup) but at most one
+// entry can be meant, the live store and the reloaded one must give the same answer - an operation on one
+// entry must not change what is read for another one other than through the file.
+func reopenCheck(path string, m *model, addrs []string, live ...*credentials.FileStore) *driver.Fail {
 	var st *credentials.FileStore
 	var err error
 	if p := guard(func() { st, err = credentials.NewFileStore(path) }); p != "" {
@@ -160,6 +164,17 @@ func reopenCheck(path string, m *model, addrs []string) *driver.Fail {
 		}
 		if f := judgeGet(m, a, got, err, "after reloading the file: ", nil); f != nil {
 			return f
+		}
+		if allowed, _ := m.get(a); len(live) > 0 && len(allowed) <= 2 {
+			var lgot cred
+			var lerr error
+			if p := guard(func() { lgot, lerr = live[0].Get(context.Background(), a) }); p != "" {
+				return &driver.Fail{Sig: "Get panics: " + firstLine(p), Detail: p}
+			}
+			if (lerr == nil) != (err == nil) || lerr == nil && lgot != got {
+				return &driver.Fail{Sig: "Get answers differently from a store that has just loaded the same file (an operation on one entry changed what is read for another)",
+					Detail: fmt.Sprintf("Get(%q): the store that executed the history answers %+v, %v; a fresh store on the same file answers %+v, %v", a, lgot, lerr, got, err)}
+			}
 		}
 	}
 	return nil
